@@ -645,6 +645,8 @@ def make_numpy(interp):
 
     def np_broadcast_to(x, shape):
         shape = _shape_tuple(shape, interp)
+        if isinstance(x, (list, tuple)):
+            x = A.array_from_nested(x)
         if not isinstance(x, NDArr):
             return A.fresh_array("bcast", shape, lambda idx: x)
         rd = x.frozen()
@@ -1048,9 +1050,24 @@ def ndarray_attr(interp, x: NDArr, name):
         def reshape(*shape):
             if len(shape) == 1 and isinstance(shape[0], (tuple, list)):
                 shape = tuple(shape[0])
-            if tuple(shape) == tuple(x.shape):
+            shape = tuple(shape)
+            if shape == tuple(x.shape):
                 return x
-            raise Unsupported("reshape")
+            # only insertion / removal of axes of length one (a view in NumPy)
+            old_nz = [(a, s) for a, s in enumerate(x.shape) if concrete(s) != 1]
+            new_nz = [(a, s) for a, s in enumerate(shape) if concrete(s) != 1]
+            if len(old_nz) == len(new_nz) and all(concrete(compare("==", s1, s2)) is not False for (_, s1), (_, s2) in zip(old_nz, new_nz)):
+                amap = {oa: na for (oa, _), (na, _) in zip(old_nz, new_nz)}
+                imap = []
+                for m in x.imap:
+                    if m[0] == "fix":
+                        imap.append(m)
+                    elif m[1] in amap:
+                        imap.append(("ax", amap[m[1]], m[2], m[3]))
+                    else:  # an old axis of length one disappears: index 0
+                        imap.append(("fix", m[2]))
+                return NDArr(x.buf, imap, shape)
+            raise Unsupported("reshape that is not an insertion/removal of unit axes")
         return reshape
     if name == "squeeze":
         return lambda *a, **k: x
